@@ -487,9 +487,8 @@ func (t *Transition) setupExitEnter() {
 
 func (t *Transition) emitSelfEvents() Result {
 	m := t.Machine
-	ret := Executed
-	var handlerCalled bool
-	for _, s := range t.TargetStates() {
+	// iterate over a copy, partial auto acceptance deletes from the target
+	for _, s := range slices.Clone(t.TargetStates()) {
 		// only the active states
 		if !t.Machine.Is(S{s}) {
 			continue
@@ -498,7 +497,7 @@ func (t *Transition) emitSelfEvents() Result {
 		autoState := t.cacheSchema[s].Auto
 		name := s + s
 		t.latestHandlerToState = s
-		ret, handlerCalled = m.handle(name, t.Mutation.Args, false, false, true)
+		ret, handlerCalled := m.handle(name, t.Mutation.Args, false, false, true)
 		if handlerCalled && t.isLogSteps() {
 			step := newStep("", s, StepHandler, 0)
 			step.IsSelf = true
@@ -518,7 +517,8 @@ func (t *Transition) emitSelfEvents() Result {
 		}
 	}
 
-	return ret
+	// a rejected auto state doesn't cancel the others
+	return Executed
 }
 
 func (t *Transition) emitEnterEvents() Result {
